@@ -222,7 +222,9 @@ func runC14(c *Ctx) {
 		sub := &Report{Rules: map[string]string{}, known: map[string]string{}, knownSeen: map[string]bool{}, Extra: map[string]interface{}{}, c: c}
 		saved := c.R
 		c.R = sub
+		importDepth++
 		runC12(c)
+		importDepth--
 		c.R = saved
 		n := 0
 		for _, o := range sub.Obs {
